@@ -200,6 +200,9 @@ def canon_key(k):
   return json.dumps(_j(k), sort_keys=True)
 
 
+CAPPED = []  # (subspace, spec) of tasks not finished when the wall-clock cap was reached
+
+
 def run_property(modname, tier, seed, only=None):
   mod = importlib.import_module(modname)
   pid = mod.ID
@@ -224,11 +227,36 @@ def run_property(modname, tier, seed, only=None):
     npool = ctx.Pool(nw, initializer=_init_worker) if specs else None
     try:
       hres = [hpool.apply_async(_run_task, (s,)) for s in heavy] if hpool else []
+      # wall-clock cap (thorough tier only by default): a capped run is reported as capped -
+      # unfinished tasks are listed in caps_hit and their sub-spaces marked incomplete
+      cap = float(os.environ.get('VERIF_TIME_CAP', '2400' if tier == 'thorough' else '0'))
+      deadline = t0 + cap if cap > 0 else None
+      del CAPPED[:]
       if npool:
-        for d in npool.imap_unordered(_run_task, specs, chunksize=1):
+        it = npool.imap_unordered(_run_task, specs, chunksize=1)
+        ndone = 0
+        while ndone < len(specs):
+          try:
+            d = it.next(timeout=5 if deadline else None)
+          except multiprocessing.TimeoutError:
+            if deadline and time.time() > deadline:
+              break
+            continue
           results.append(d)
+          ndone += 1
       for h in hres:
-        results.append(h.get())
+        try:
+          results.append(h.get(timeout=max(1, deadline - time.time()) if deadline else None))
+        except multiprocessing.TimeoutError:
+          pass
+      if deadline:
+        done_specs = collections.Counter(d.get('spec') for d in results)
+        for s in specs + heavy:
+          key = '%s(%s)' % (s[1], json.dumps(_j(s[2]))[:150])
+          if done_specs[key] > 0:
+            done_specs[key] -= 1
+          else:
+            CAPPED.append((s[3], key))
     finally:
       for p_ in (hpool, npool):
         if p_:
@@ -268,6 +296,12 @@ def finish(mod, tier, seed, tasks, results, t0, only_partial=False):
         extra.setdefault(k, v)
     if d.get('harness_error'):
       harness_errors.append(d['harness_error'])
+  for subspace, spec in CAPPED:
+    sub[subspace]['complete'] = False
+    tot.caps_hit.append('wall-clock cap (VERIF_TIME_CAP) reached: not finished: %s' % spec[:160])
+  if CAPPED:
+    tot.notes.append('%d of %d tasks were not finished when the wall-clock cap was reached; the '
+                     'verdict covers the finished tasks only' % (len(CAPPED), len(tasks)))
   # samples: first, a middle one and the last, in plan order
   by_sub = collections.defaultdict(list)
   for d in results:
